@@ -71,6 +71,7 @@ func (pj *internalParsedJson) findStructuralIndices() bool {
 		index := indexChan{}
 		offset := atomic.AddUint64(&pj.buffersOffset, 1)
 		index.indexes = &pj.buffers[offset%indexSlots]
+		verifEvent(verifEvAcquire, pj, offset, offset%indexSlots, index.indexes)
 
 		// In case last index during previous round was stripped back, put it back
 		if stripped_index != ^uint64(0) {
@@ -133,14 +134,17 @@ func (pj *internalParsedJson) findStructuralIndices() bool {
 			stripped_index = uint64(index.indexes[index.length-1])
 			position -= stripped_index
 			index.length -= 1
+			verifEvent(verifEvStrip, pj, stripped_index, 0, index.indexes)
 		}
 
+		verifEvent(verifEvSend, pj, uint64(index.length), 0, index.indexes)
 		pj.indexChans <- index
 		indexTotal += index.length
 
 		buf = buf[processed:]
 		position -= processed
 	}
+	verifEvent(verifEvTerm, pj, 0, 0, nil)
 	pj.indexChans <- indexChan{index: -1}
 
 	// a valid JSON file cannot have zero structural indexes - we should have found something
